@@ -20,7 +20,10 @@ CONSTANTS
   LibDrop,      \* findings dropped by library.reportErrors
   EarlyExit,    \* files whose check returns before the duplicate list is cleared
   Threads,      \* worker ids of the thread executor
-  NJobs         \* -j
+  NJobs,        \* -j
+  CrashFiles,   \* files whose worker process may die at any point (C21)
+  Bug           \* "none", or a deliberately wrong driver used to show that the properties are not vacuous:
+                \*   "dropSupprSync": a worker process does not send back the state of consulted non-inline suppressions
 
 VARIABLES q,    \* index of the next file to hand out
           dv    \* [worker -> [stage, pos, todo]] driver program counter
@@ -146,7 +149,8 @@ DWorker(w) ==
   \/ /\ s = "acct" /\ Mode = "thread" /\ AccountThread(w, IF xflag[w] THEN 1 ELSE 0)
      /\ SetDv(w, [dv[w] EXCEPT !.stage = "none"]) /\ UNCHANGED q
   \/ /\ s = "acct" /\ Mode = "process" /\ ChildChecked(w, IF xflag[w] THEN 1 ELSE 0)
-     /\ SetDv(w, [dv[w] EXCEPT !.stage = "sync", !.todo = {k \in DOMAIN sl[w] : sl[w][k].inl \/ sl[w][k].checked}])
+     /\ SetDv(w, [dv[w] EXCEPT !.stage = "sync",
+                                !.todo = {k \in DOMAIN sl[w] : sl[w][k].inl \/ (sl[w][k].checked /\ Bug # "dropSupprSync")}])
      /\ UNCHANGED q
   \* ---- process executor: send the suppression state, CHILD_END, exit
   \/ /\ s = "sync" /\ dv[w].todo # {} /\ wk[w].pl.k \notin dv[w].todo
@@ -161,6 +165,13 @@ DWorker(w) ==
      /\ Sent(w, "5", IF xflag[w] THEN 1 ELSE 0)
      /\ SetDv(w, [dv[w] EXCEPT !.stage = "exit"]) /\ UNCHANGED q
   \/ /\ s = "exit" /\ ChildGone(w) /\ SetDv(w, [dv[w] EXCEPT !.stage = "none"]) /\ UNCHANGED q
+
+\* ------------------------------------------------------------- a worker process dies (C21): at ANY point of its work
+DCrash(c) ==
+  /\ Mode = "process" /\ c \in DOMAIN chst /\ chst[c].alive
+  /\ chst[c].file \in CrashFiles /\ dv[c].stage \notin {"none", "crashed"}
+  /\ ChildGone(c)
+  /\ SetDv(c, [dv[c] EXCEPT !.stage = "crashed"]) /\ UNCHANGED q
 
 \* ------------------------------------------------------------- parent of the process executor
 Busy == \E c \in DOMAIN chst : PName(c) \in DOMAIN wk /\ wk[PName(c)].st # "idle"
@@ -184,7 +195,14 @@ DParent ==
              /\ pipe[c] # <<>> /\ ~chst[c].eof /\ ~chst[c].ended
              /\ Recv(c, Head(pipe[c]).t, Head(pipe[c]).n)
              /\ UNCHANGED dv
+     \/ /\ ~Busy /\ \E c \in DOMAIN chst : PipeEof(c) /\ UNCHANGED dv
      \/ /\ ~Busy /\ \E c \in DOMAIN chst : Reap(c) /\ UNCHANGED dv
+     \/ \* waitpid reported an abnormal end: the parent raises cppcheckError for that file
+        /\ ~Busy
+        /\ \E c \in DOMAIN chst :
+             /\ chst[c].reaped /\ c \in DOMAIN dv /\ dv[c].stage = "crashed"
+             /\ ChildErr(c, [id |-> "cppcheckError", sev |-> "error", inc |-> FALSE, file |-> chst[c].file, line |-> 0, col |-> 0, msg |-> "crash"])
+             /\ SetDv(c, [dv[c] EXCEPT !.stage = "none"])
 
 \* ------------------------------------------------------------- after the executor
 DFinish ==
@@ -209,6 +227,7 @@ DFinish ==
      \/ /\ phase = "post" /\ dv["main"].stage = "mexit" /\ Exit(IF result # 0 THEN ExitCode ELSE 0) /\ UNCHANGED dv
 
 DNext ==
+  \/ \E c \in DOMAIN chst : DCrash(c)
   \/ DStart
   \/ \E w \in DOMAIN dv : w \in DOMAIN wk /\ DWorker(w)
   \/ DParent
